@@ -64,7 +64,7 @@ InvType     == TypeOK(s)
 InvRevert   == RevertRestores(s)
 InvFinalise == FinaliseClears(s)
 InvFeasible == Feasible(s)
-InvBAL      == BALInvariants(s) /\ Functional(blk)
+InvBAL      == BALInvariants(s) /\ Functional(blk) /\ (CheckBAL => NoEmptyBetweenTxs(s))
 
 TraceAccepted == TLCGet("stats").diameter - 1 = Len(Trace)
 =============================================================================
